@@ -154,6 +154,7 @@ def run(R):
     r9(R)
     r10(R)
     r11(R)
+    r12(R)
 
 
 def r1(R):
@@ -764,3 +765,70 @@ def r11(R):
                  where=b.where(c.ln), detail=None if from_child else "this candidate derives from %s only: the sub-plan is dropped from the plan"
                  % sorted(t[1] for t in d if t[0] == "call")[:4])
     R.floor("C02-R11", "planner arms for operators with children that offer candidates", narms, 8)
+
+
+def r12(R):
+    """the incoming solutions enter a join once"""
+    from lib import pipeline as P
+    prog = R.prog
+    R.rule("C02-R12", "the incoming solutions enter a join once: where an executor arm joins the results of two sub-executions "
+                      "(join_solution_sequences / hash_join_solution_sequences), at most one of the two was started from the arm's incoming "
+                      "solutions - the other starts from the unit solution or from the first one's result. Feeding `incoming` to both computes "
+                      "(I x L) x (I x R): every pair of compatible incoming rows adds solutions, and only under the join algorithms that do it, "
+                      "so the answer depends on the plan the cost model picks")
+    ex = R.body("C02-R12", "ExecutionEngine::execute_with_ids_and_input", crate="kolibrie")
+    if ex is None:
+        return
+    names = [ex.local_name(i) for i in range(1, ex.nargs + 1)]
+    if "incoming" not in names:
+        return
+    joins = [c for c in ex.calls() if c.name() in ("join_solution_sequences", "hash_join_solution_sequences") and len(c.args) >= 2]
+    R.floor("C02-R12", "places where the executor joins two solution sequences", len(joins), 3)
+    for c in joins:
+        fed = 0
+        srcs = []
+        for a in c.args[:2]:
+            pl = F.op_place(a)
+            if pl is None:
+                continue
+            # the recursive execution(s) this operand comes from
+            rec = _feeding_calls(ex, pl["l"], c.bb)
+            from_inc = False
+            for rc in rec:
+                if len(rc.args) >= 4 and F.op_place(rc.args[3]) is not None:
+                    d = P.derives(prog, ex, F.op_place(rc.args[3])["l"], at_bb=rc.bb)
+                    if ("param", "incoming") in d and not any(t[0] == "call" and t[1] == ex.name for t in d):
+                        from_inc = True
+            if not rec:
+                d = P.derives(prog, ex, pl["l"], at_bb=c.bb)
+                if ("param", "incoming") in d:
+                    srcs.append("incoming itself")
+                    continue
+            fed += 1 if from_inc else 0
+            srcs.append("a sub-execution started from incoming" if from_inc else "a sub-execution not started from incoming")
+        ok = fed <= 1
+        R.ob("C02-R12", "incoming-once:%d" % (c.ln or 0) if False else "incoming-once:" + c.name(), "the operands of %s are not both started from the incoming solutions (%s)" % (c.name(), "; ".join(srcs)),
+             ok, where=ex.where(c.ln), detail=None if ok else "both operands were evaluated on `incoming`: rows of `incoming` that are compatible with each other are multiplied")
+
+
+def _feeding_calls(b, l, at_bb, depth=0, seen=None):
+    """recursive executor calls whose result flows into local l (through moves), nearest ones only"""
+    seen = seen if seen is not None else set()
+    if l in seen or depth > 8:
+        return []
+    seen.add(l)
+    out = []
+    for d in b.defs().get(l, []):
+        if d[0] == "call":
+            c = d[2]
+            if c.key == b.key or c.name() in ("execute_with_ids_and_context", "execute_with_ids_and_input"):
+                out.append(c)
+            elif c.name() in ("clone", "into_iter", "collect", "deref"):
+                for a in c.args[:1]:
+                    pl = F.op_place(a)
+                    if pl is not None:
+                        out += _feeding_calls(b, pl["l"], at_bb, depth + 1, seen)
+        elif d[0] == "assign" and d[3]["rv"] in ("use", "ref"):
+            for q, k in F.rv_places(d[3]):
+                out += _feeding_calls(b, q["l"], at_bb, depth + 1, seen)
+    return out
